@@ -162,6 +162,27 @@ func genC02(env *core.Env, emit func(core.Case)) {
 		edit("swapped-aead", func(e *gen.ECHOuter) { e.AEAD = e.AEAD%3 + 1 })
 		edit("swapped-kdf", func(e *gen.ECHOuter) { e.KDF = 2 })
 		edit("wrong-config-id", func(e *gen.ECHOuter) { e.ConfigID += uint8(1 + r.IntN(255)) })
+		// a suite the key's config does not offer: sealed correctly (right public key, info, AAD) with an
+		// AEAD the library implements but this config does not list
+		{
+			sub := gen.NewKey(r, key.ID, "public.example", []gen.Suite{suite})
+			for _, other := range gen.AllSuites {
+				if other != suite {
+					s3 := gen.Seal(plan.OuterBase, r.IntN(len(plan.OuterBase.Exts)+1), sub, other, pt, nil, 0x0301)
+					check("suite-not-offered", "-", []*gen.KeyMat{sub}, s3.Rec, true)
+				}
+			}
+			s4 := gen.Seal(plan.OuterBase, 0, sub, suite, pt, nil, 0x0301)
+			check("unmodified", "single-suite-config", []*gen.KeyMat{sub}, s4.Rec, false)
+		}
+		// the extension names the id of one held key while the payload is sealed to another held key
+		{
+			k2 := gen.NewKey(r, key.ID+1+uint8(r.IntN(200)), "public.example", gen.AllSuites)
+			s5 := gen.SealAs(plan.OuterBase, r.IntN(len(plan.OuterBase.Exts)+1), k2, key.ID, suite, pt, nil, 0x0301)
+			check("names-other-held-key", "named-first", []*gen.KeyMat{key, k2}, s5.Rec, true)
+			check("names-other-held-key", "named-last", []*gen.KeyMat{k2, key}, s5.Rec, true)
+			check("names-other-held-key", "named-absent", []*gen.KeyMat{k2}, s5.Rec, true)
+		}
 		// payload of another tuple sealed to the same key (authentic, but bound to another outer hello)
 		plan2 := gen.Plan(r, o)
 		sealed2 := gen.Seal(plan2.OuterBase, 0, key, suite, plan2.Enc.Body(), nil, 0x0301)
